@@ -133,7 +133,11 @@ void task_group_context_impl::bind_to_impl(d1::task_group_context& ctx, thread_d
 
     // Condition below prevents unnecessary thrashing parent context's cache line
     if (ctx.my_parent->my_may_have_children.load(std::memory_order_relaxed) != d1::task_group_context::may_have_children) {
-        ctx.my_parent->my_may_have_children.store(d1::task_group_context::may_have_children, std::memory_order_relaxed); // full fence is below
+        ctx.my_parent->my_may_have_children.store(d1::task_group_context::may_have_children, std::memory_order_relaxed);
+        // The flag must be visible before the parent's state is read below: a thread cancelling the parent sets
+        // the state first and then skips the propagation if it does not see the flag (the full fence issued by
+        // register_with comes too late for the speculative read of the parent's state).
+        atomic_fence_seq_cst();
     }
     if (ctx.my_parent->my_parent) {
         // Even if this context were made accessible for state change propagation
